@@ -29,7 +29,7 @@ NT == NameTable
 Known(i) == i \in 1..Len(NT)
 QueryIdx(tr) == IF tr.qset = "W" THEN WQueryIdx ELSE UQueryIdx
 
-RecSet(recs) == {<<NT[recs[i][1]], recs[i][2], recs[i][3]>> : i \in 1..Len(recs)}
+RecSeq(recs) == Tup([i \in 1..Len(recs) |-> <<NT[recs[i][1]], recs[i][2], recs[i][3]>>])
 LoggedContent(p) ==
     [key \in {<<NT[p[i][1]], p[i][2]>> : i \in 1..Len(p)} |->
         LET i == CHOOSE i \in 1..Len(p) : <<NT[p[i][1]], p[i][2]>> = key IN ToSetOf(p[i][3])]
@@ -96,7 +96,7 @@ TraceInit ==
 
 TLoad == /\ e.op = "load"
          /\ Check(t, l, "KnownNames", \A i \in 1..Len(e.recs) : Known(e.recs[i][1]))
-         /\ Load(RecSet(e.recs)) /\ OpOk /\ Judge(e.obs) /\ Adv
+         /\ Load(RecSeq(e.recs)) /\ OpOk /\ Judge(e.obs) /\ Adv
 TBegin == e.op = "begin" /\ Begin /\ OpOk /\ bad' = bad /\ Adv
 TOp(kind, A(_, _, _)) == /\ e.op = kind /\ Check(t, l, "KnownNames", Known(e.name))
                          /\ A(NT[e.name], e.type, e.k) /\ OpOk /\ bad' = bad /\ Adv
